@@ -292,6 +292,14 @@ PROPS = {
         "verus": [],
         "not_decided": ["finish/stopped futures over quinn", "signal delivery"],
     },
+    "C10": {
+        "level": "proof",
+        "claim": "Decision logic of certificate-hash pinning, for EVERY leaf certificate, handshake time and pinned set (Verus unit tls_pin on the extracted body of ServerHashVerification::verify_server_cert): the verifier answers Ok IFF the leaf parses AND not_before <= now <= not_after AND (not_after - not_before) exists and is <= 14 days (the constant SELF_MAX_VALIDITY is proved to be 14 days) AND the key algorithm is id-ecPublicKey with parameters prime256v1 AND the leaf's SHA-256 is in the configured set; no value of the other inputs lets a certificate failing one condition through.",
+        "note": "Assumed (stand-in interfaces with uninterpreted views, listed in the evidence): x509-parser (from_der, validity, ASN1Time order and subtraction, Oid equality, Any::as_oid), time (OffsetDateTime::from_unix_timestamp, Duration::days / order), sha2 (Sha256::digest), std BTreeSet::contains, u64->i64 try_into, rustls error conversion; precondition: the handshake time is representable as an OffsetDateTime (otherwise the code panics with 'time overflow', which is not an acceptance). NOT decided: that rustls calls this verifier and aborts the handshake on Err, signature verification (delegated to rustls), the default WebPKI trust policy, 'a refused server never yields a session' (driver). No counterexample input: Verus gives none and no Kani harness can execute x509-parser symbolically.",
+        "kani": [],
+        "verus": [V("tls_pin")],
+        "not_decided": ["rustls handshake integration", "default trust policy (webpki)", "no session after refusal (driver)"],
+    },
     "C11": {
         "level": "proof",
         "claim": "Every sans-IO decoder under contract is total and exact: on EVERY byte string up to the stated length (Kani: varints, frames incl. the 4096 limit, stream headers, datagrams, capsules, QPACK prefix integers of all widths, field-line types) and for inputs of ANY length (Verus: Frame::read / read_async, StreamHeader::read / read_async, Settings::with_frame and Decoder::decode equal to reference interpreters, decode_string, Capsule::with_frame, Datagram::read): no panic / arithmetic overflow / OOB, loops terminate with progress, allocations are bounded by the parse limit resp. the input length, numeric overflow is an error, returned ids respect their type invariants.",
@@ -416,7 +424,6 @@ NOT_APPLICABLE = {
     "C07": "liveness/independence over task interleavings (stalled streams never block others): whole-history concurrency property, outside contract-based deductive verification (no Kani threads, Verus would need permission types on tokio internals).",
     "C08": "exactly-once delivery over mpsc queues, cancellation and multi-task accept: whole-history concurrency property, no per-call contract expresses it.",
     "C09": "prompt, total termination over all pending futures: liveness + concurrency over tokio/quinn, not a per-call contract.",
-    "C10": "verify_server_cert is x509-parser + sha2 + time on DER input inside a rustls trait method; neither verifier can execute those symbolically and extracting the conjunction would be a hand-written model.",
     "C19": "rcgen/x509/PEM file I/O and format!/split/parse string processing: Verus has no str byte reasoning and format! on 32 symbolic bytes is beyond CBMC.",
     "C20": "decided only by binding sockets and inspecting negotiated connections (quinn/rustls configuration objects); no contract within reach.",
 }
